@@ -374,6 +374,10 @@ impl Catalog {
             stats.total_bytes_freed += bytes_freed;
         }
 
+        // Relations whose CREATE was rolled back: their catalog rows are about to be removed for good,
+        // so their pages must go back to the free list now or nothing would ever reach them again.
+        let aborted_roots = self.roots_of_aborted_creates(builder, snapshot)?;
+
         // vacuum the meta table itself
         stats.meta_table_bytes_freed += self.vacuum_btree(
             self.meta_table,
@@ -392,7 +396,40 @@ impl Catalog {
             oldest_active_xid,
         )?;
 
+        for root in aborted_roots {
+            builder.build_tree_mut(root).dealloc()?;
+        }
+
         Ok(stats)
+    }
+
+    /// Root pages of the relations in the meta table whose creating transaction was rolled back
+    /// and that no DROP has deallocated yet.
+    fn roots_of_aborted_creates(
+        &self,
+        builder: &BtreeBuilder,
+        snapshot: &Snapshot,
+    ) -> CatalogResult<Vec<PageId>> {
+        let schema = meta_table_schema();
+        let mut roots = Vec::new();
+        let mut meta_table = builder.build_tree(self.meta_table);
+        if meta_table.is_empty()? {
+            return Ok(roots);
+        }
+        for position in meta_table.iter_forward()? {
+            let pos = position?;
+            meta_table.with_cell_at(pos, |bytes| {
+                let tuple = Tuple::from_slice_unchecked(bytes)?;
+                if snapshot.is_transaction_aborted(tuple.xmin()) && !tuple.is_deleted() {
+                    let reader = TupleReader::from_schema(&schema);
+                    let layout = reader.parse_last_version(bytes)?;
+                    let row = TupleRef::new(bytes, layout).to_row_with(&schema)?;
+                    roots.push(Relation::from_meta_table_row(row).root());
+                }
+                Ok::<(), TupleError>(())
+            })??;
+        }
+        Ok(roots)
     }
 
     /// Vacuums a single B-tree, iterating through all tuples and removing
